@@ -50,7 +50,7 @@ def _cfg(name, root):
 
 # minimal malformed file endings by construct, and the option families that process that construct
 TAIL_FAMILIES = {
-    'comment': ([b'/*', b'/* x', b'/**/', b'//', b'// x \\', b'/+', b'/', b'/*/', b'*/', b'/* a\n * b', b'int a; /*', b'int a; //'],
+    'comment': ([b'/*', b'/* x', b'/**/', b'//', b'// x \\', b'/+', b'/', b'/*/', b'*/', b'/* a\n * b', b'int a; /*', b'int a; //', b'/* a */\n/*x', b'/* a */\n/*', b'// a\n//', b'/* a */\n/* b */\n/*/'],
                 ('cmt_', 'sp_cmt', 'sp_before_tr', 'sp_num_before_tr', 'nl_before_block_comment', 'nl_before_c_comment', 'nl_before_cpp_comment',
                  'nl_after_multiline_comment', 'mod_add_', 'indent_cmt', 'indent_col1_comment', 'indent_relative_single', 'align_right_cmt', 'sp_endif_cmt',
                  'indent_comment')),
@@ -60,6 +60,11 @@ TAIL_FAMILIES = {
             b'#define X(a', b'# '],
            ('pp_', 'nl_squeeze', 'nl_multi_line_define', 'nl_before_if_closing', 'nl_after_if', 'mod_add_long_ifdef', 'align_pp', 'align_nl_cont',
             'sp_pp', 'sp_macro', 'sp_before_nl_cont', 'indent_macro')),
+    # statement fragments with nothing around them (the scans that walk back to an enclosing brace meet the start of the file)
+    'bare': ([b'switch (x) case 1: y;', b'case 1: y;', b'default: z;', b'else x;', b'break;', b'return 1;', b'} else {', b'while (x) y;', b'x ? y : z;',
+              b'goto l; l:', b'do x; while (y);', b': a(1) {}', b'catch (...) {}', b'operator', b'template<> class', b'public:', b'l: x;', b', a', b'= 1;',
+              b'-> x', b'#define M case 1:'],
+             ('nl_', 'mod_', 'pos_', 'indent_', 'align_', 'eat_blanks')),
     'block': ([b'{', b'(', b'[', b'}', b')', b']', b'if (', b'if (a)', b'else', b'do', b'for (;;', b'case', b'switch (a) {', b'switch (a) { case 1:',
                b'a ?', b'return', b'enum {', b'struct {', b'a = {', b'template<', b'class A :'],
               ('mod_', 'nl_', 'eat_blanks', 'indent_brace', 'indent_switch', 'indent_case')),
@@ -218,7 +223,12 @@ def build_cases(ctx):
                         fam_cases[fam].append((b'int z;\n' + tail, lang, 'opt:%s=%s' % (o.name, v)))
     ctx.extra['tail_option_universe'] = {k: len(v) for k, v in fam_cases.items()}
     for fam, lst in fam_cases.items():
-        if quick and fam != 'comment':
+        if quick and fam == 'bare':
+            # in every run: the control-flow fragments under every newline option; the rest is sampled
+            head = set(TAIL_FAMILIES['bare'][0][:8])
+            fixed_part = [c for c in lst if c[2].startswith('opt:nl_') and any(c[0].endswith(t) for t in head)]
+            lst = fixed_part + sr.sample([c for c in lst if c not in set(fixed_part)], 500)
+        elif quick and fam != 'comment':
             lst = sr.sample(lst, min(len(lst), 500))
         elif not quick and len(lst) > 20000:
             lst = sr.sample(lst, 20000)
